@@ -1,18 +1,31 @@
 (* Proofs/RecurExact3.v — exactness of the REVERSE fetch of Model/Recur.v against
    Spec/RecurSpec.v, and totality of the safe anchor.
+   1-2. the reverse pager, relative to the windows it asks
      reverse_go_pager_partial    an Ok result of reverse_go is the result of the abstract pager over
                                  any fwd that agrees with the Ok answers of the chunk fetches asked
      C08_reverse_exact           fetch_reverse r a b = Ok l -> l = rev (spec_occurrences r a b)
+                                 (the whole window: the reverse fetch restricts nothing further)
      C08_reverse_is_rev_forward_exact   Ok lf forward, Ok lr reverse -> lr = rev lf
      C08_reverse_chunks_ok       an Ok reverse fetch means every chunk fetch asked was Ok
-     C08_reverse_total_chunks    every chunk fetch asked Ok -> the reverse fetch is
-                                 Ok (rev (spec_occurrences r a b)) (the fuel nchunks suffices)
-     safe_anchor_iff             _get_safe_anchor answers iff some step-back (within BACK_FUEL) lands
-                                 on a month / year >= 1 that has the anchor's day
-     safe_anchor_total_all       it answers for every rule, for every look-back date not before the
-                                 anchor's period, or whose year exceeds (steps + 1) * interval
-     safe_anchor_total_refuted   ... and not otherwise: the ValueError of year < 1 is reachable
-     C08_answers_every_window    forward / reverse totality without the hypothesis on safe_anchor *)
+     C08_reverse_total_chunks / _subwindows   every chunk fetch asked Ok -> the reverse fetch is
+                                 Ok (rev (spec_occurrences r a b)): the fuel nchunks suffices
+   3. _get_safe_anchor
+     safe_anchor_monthly_iff / _yearly_iff   it answers iff some step-back lands on a month / year
+                                 >= 1 that has the anchor's day
+     safe_anchor_total_all       it answers for EVERY rule (days 29-31, 29 February included) when the
+                                 look-back date is not before the anchor's month / year, or its
+                                 year leaves room for back_steps + 1 intervals; back_steps = 0
+                                 (day <= 28), 1 (29th, 30th), 5 (31st; attained), 399 (29 February
+                                 with an interval of whole years)
+     safe_anchor_none_genuine_*  a None is always the year < 1 ValueError, never the model's fuel
+     safe_anchor_total_refuted, C08_answers_every_window_refuted(_interval_1)
+                                 ... and the year < 1 ValueError IS reachable: the fetch raises on
+                                 a window whose correct answer is the empty list
+   4. every window answered
+     C08_forward_answers, C08_answers_every_window(_after_anchor)
+   occurrences of positive length: occ_positive_wf (any well-formed zone table, duration > 0);
+     C08_reverse_exact_zero_duration_refuted: with duration = 0 (accepted by recurring()) the
+     reverse fetch loses the occurrences lying on chunk edges *)
 From CG Require Import Model.Recur Spec.RecurSpec Proofs.CivilP Proofs.CdateP Proofs.RecurP
   Proofs.RecurExact Proofs.RecurExact2.
 From Coq Require Import Lia ZifyBool Sorting.Sorted.
@@ -540,6 +553,48 @@ Proof.
 Qed.
 Print Assumptions safe_anchor_total_all.
 
+(* the exact condition: _get_safe_anchor answers iff some step-back, within the fuel of the model
+   (BACK_FUEL = 2000; the Python loop has no bound other than year >= 1), lands on a month / a year
+   >= 1 that has the anchor's day *)
+Theorem safe_anchor_monthly_iff : forall r sd,
+  r_freq r = Monthly -> 0 < r_interval r ->
+  let k := r_interval r in
+  let abs0 := midx sd - (midx sd - midx (base_day r)) mod k in
+  (exists a0, safe_anchor r sd = Some a0) <->
+  (exists j, 0 <= j <= Z.of_nat BACK_FUEL /\ 1 <= (abs0 - j * k) / 12 /\
+             mday_ok (day_of (base_day r)) (abs0 - j * k)).
+Proof.
+  intros r sd Ef Hk k abs0. unfold safe_anchor. rewrite Ef.
+  unfold abs0, midx, year_of, month_of, day_of. clear abs0.
+  destruct (civil_from_days (base_day r)) as [[by_ bm] bd] eqn:Eb.
+  destruct (civil_from_days sd) as [[sy sm] sdd] eqn:Es. cbn [fst snd]. fold k.
+  replace (by_ * 12 + bm - 1 + ((sy - by_) * 12 + (sm - bm) - ((sy - by_) * 12 + (sm - bm)) mod k))
+    with (sy * 12 + sm - 1 - (sy * 12 + sm - 1 - (by_ * 12 + bm - 1)) mod k).
+  2:{ replace (sy * 12 + sm - 1 - (by_ * 12 + bm - 1)) with ((sy - by_) * 12 + (sm - bm)) by ring. ring. }
+  split.
+  - intros [a0 H]. exact (month_back_step _ _ _ _ _ H).
+  - intros (j & Hj & Hy & Hd). exact (month_back_hit k bd ltac:(lia) _ _ j Hj Hy Hd).
+Qed.
+Print Assumptions safe_anchor_monthly_iff.
+
+Theorem safe_anchor_yearly_iff : forall r sd,
+  r_freq r = Yearly -> 0 < r_interval r ->
+  let k := r_interval r in
+  let y0 := year_of sd - (year_of sd - year_of (base_day r)) mod k in
+  (exists a0, safe_anchor r sd = Some a0) <->
+  (exists j, 0 <= j <= Z.of_nat BACK_FUEL /\ 1 <= y0 - j * k /\
+             day_of (base_day r) <= dim (y0 - j * k) (month_of (base_day r))).
+Proof.
+  intros r sd Ef Hk k y0. unfold safe_anchor. rewrite Ef.
+  unfold y0, year_of, month_of, day_of. clear y0.
+  destruct (civil_from_days (base_day r)) as [[by_ bm] bd] eqn:Eb.
+  destruct (civil_from_days sd) as [[sy sm] sdd] eqn:Es. cbn [fst snd]. fold k.
+  split.
+  - intros [a0 H]. exact (year_back_step _ _ _ _ _ _ H).
+  - intros (j & Hj & Hy & Hd). exact (year_back_hit k bm bd ltac:(lia) _ _ j Hj Hy Hd).
+Qed.
+Print Assumptions safe_anchor_yearly_iff.
+
 (* safe_anchor_total_all subsumes safe_anchor_total of RecurExact2.v (days <= 28: no step) *)
 Corollary safe_anchor_total_le28 r sd :
   0 < r_interval r ->
@@ -587,6 +642,69 @@ Proof.
   repeat split; try (vm_compute; congruence);
     intros [_ H]; vm_compute in H; apply H; reflexivity.
 Qed.
+
+(* The fuel BACK_FUEL of the model is never what stops the loop: when _get_safe_anchor does not
+   answer, a step within back_steps (<= 399 < BACK_FUEL) has reached a year < 1 — the ValueError
+   the Python loop re-raises.  So the model's None is exactly Python's exception. *)
+Lemma back_steps_le r : back_steps r <= 399.
+Proof.
+  unfold back_steps, msteps, ysteps. destruct (r_freq r); try lia.
+  - destruct (day_of (base_day r) <=? 28); [lia|].
+    destruct ((month_of (base_day r) =? 2) && (r_interval r mod 12 =? 0)); [lia|].
+    destruct (day_of (base_day r) <=? 30); lia.
+  - destruct ((month_of (base_day r) =? 2) && (day_of (base_day r) =? 29)); lia.
+Qed.
+
+Theorem safe_anchor_none_genuine_monthly : forall r sd,
+  r_freq r = Monthly -> 0 < r_interval r ->
+  safe_anchor r sd = None ->
+  let k := r_interval r in
+  let abs0 := midx sd - (midx sd - midx (base_day r)) mod k in
+  exists j, 0 <= j <= back_steps r /\ (abs0 - j * k) / 12 < 1.
+Proof.
+  intros r sd Ef Hk Hnone k abs0.
+  assert (Hhit : exists jc, 0 <= jc <= back_steps r /\ mday_ok (day_of (base_day r)) (abs0 - jc * k)).
+  { unfold abs0, back_steps, midx, year_of, month_of, day_of. rewrite Ef.
+    destruct (civil_from_days (base_day r)) as [[by_ bm] bd] eqn:Eb. cbn [fst snd].
+    destruct (civil_fields_valid _ _ _ _ Eb) as [Hvb _]. apply valid_date_elim in Hvb.
+    set (S := fst (fst (civil_from_days sd)) * 12 + snd (fst (civil_from_days sd)) - 1).
+    set (q := (S - (by_ * 12 + bm - 1)) / k).
+    replace (S - (S - (by_ * 12 + bm - 1)) mod k) with (by_ * 12 + bm - 1 + q * k)
+      by (unfold q; rewrite (Z.mod_eq (S - (by_ * 12 + bm - 1)) k) by lia; ring).
+    fold k. apply monthly_candidate; lia. }
+  destruct Hhit as (jc & Hjc & Hd).
+  destruct (Z_lt_ge_dec ((abs0 - jc * k) / 12) 1) as [Hlt|Hge]; [exists jc; split; assumption|].
+  exfalso.
+  destruct (proj2 (safe_anchor_monthly_iff r sd Ef Hk)) as [a0 Ha0]; [|congruence].
+  exists jc. fold k abs0. pose proof (back_steps_le r). unfold BACK_FUEL. repeat split; try lia; exact Hd.
+Qed.
+Print Assumptions safe_anchor_none_genuine_monthly.
+
+Theorem safe_anchor_none_genuine_yearly : forall r sd,
+  r_freq r = Yearly -> 0 < r_interval r ->
+  safe_anchor r sd = None ->
+  let k := r_interval r in
+  let y0 := year_of sd - (year_of sd - year_of (base_day r)) mod k in
+  exists j, 0 <= j <= back_steps r /\ y0 - j * k < 1.
+Proof.
+  intros r sd Ef Hk Hnone k y0.
+  assert (Hhit : exists jc, 0 <= jc <= back_steps r /\
+                   day_of (base_day r) <= dim (y0 - jc * k) (month_of (base_day r))).
+  { unfold y0, back_steps, year_of, month_of, day_of. rewrite Ef.
+    destruct (civil_from_days (base_day r)) as [[by_ bm] bd] eqn:Eb. cbn [fst snd].
+    destruct (civil_fields_valid _ _ _ _ Eb) as [Hvb _]. apply valid_date_elim in Hvb.
+    set (sy := fst (fst (civil_from_days sd))).
+    set (q := (sy - by_) / k).
+    replace (sy - (sy - by_) mod k) with (by_ + q * k)
+      by (unfold q; rewrite (Z.mod_eq (sy - by_) k) by lia; ring).
+    fold k. apply yearly_candidate; lia. }
+  destruct Hhit as (jc & Hjc & Hd).
+  destruct (Z_lt_ge_dec (y0 - jc * k) 1) as [Hlt|Hge]; [exists jc; split; assumption|].
+  exfalso.
+  destruct (proj2 (safe_anchor_yearly_iff r sd Ef Hk)) as [a0 Ha0]; [|congruence].
+  exists jc. fold k y0. pose proof (back_steps_le r). unfold BACK_FUEL. repeat split; try lia; exact Hd.
+Qed.
+Print Assumptions safe_anchor_none_genuine_yearly.
 
 (* ---- the hypothesis cannot be dropped: the ValueError of year < 1 is reachable ---- *)
 (* (i) yearly on 29 February from 2024: a look-back date in year 3 (day -718432 = 0003-01-01)
@@ -930,6 +1048,26 @@ Proof.
   - left; reflexivity.
   - intros b' _. exists (local_day (r_zone ex_daily) b' + 2).
     split; [apply ex_daily_matches|]. split; [unfold SLACK_DAYS; lia|reflexivity].
+Qed.
+
+(* C08_forward_answers is not vacuous on a 31st: every 5 months on the 31st from 2024-01-31, the
+   window 2026-03-15 .. 2026-04-15: the look-back date (October 2025) aligns to September 2025 and
+   the loop steps back four times to 2024-01-31; the next occurrence is 2026-07-31 (day 20665) *)
+Example C08_forward_answers_instance :
+  fetch_forward ex_m5 1773532800 1776211200 = Ok (spec_occurrences ex_m5 1773532800 1776211200) /\
+  safe_anchor ex_m5 (local_day (r_zone ex_m5) (1773532800 - lookback_buffer ex_m5)) = Some 19753.
+Proof.
+  split; [|vm_compute; reflexivity].
+  apply C08_forward_answers.
+  - apply simple_lists_ok; reflexivity.
+  - cbn; lia.
+  - unfold rule_accepted; cbn; unfold DAY; lia.
+  - reflexivity.
+  - cbn; lia.
+  - lia.
+  - left. vm_compute. split; discriminate.
+  - exists 20665. split; [vm_compute; reflexivity|]. split; [vm_compute; split; discriminate|].
+    vm_compute. reflexivity.
 Qed.
 
 (* The positive length cannot be dropped.  RecurringPattern.__init__ / recurring() do not check
